@@ -51,11 +51,13 @@ func Defs() []*schema.StoreDef {
 			{Name: "tags", Kind: schema.KList}, {Name: "nums", Kind: schema.KList}, {Name: "owner", Kind: schema.KStr, FK: Owners},
 			{Name: "friends", Kind: schema.KLinks, FK: Others}, {Name: "meta", Kind: schema.KMap, Key: "mt"},
 			{Name: "uk", Kind: schema.KStr}, // a key of its own per thing, or null: carries a nullable unique index
+			// a link collection from the store to itself (written after all things exist)
+			{Name: "peers", Kind: schema.KList, FK: Things, Derived: true}, {Name: "peerof", Kind: schema.KList, FK: Things, Derived: true},
 		},
 		Unique: []schema.UniqueDef{{Field: "uk", Nullable: true}},
 		SetIdx: []string{"nums"},
 		FKs:    []schema.FKDef{{Field: "owner", Target: Owners, Kind: schema.FkIndexNullable, BackRef: "things"}},
-		Links:  []schema.LinkDef{{Field: "friends", Target: Others, TargetField: "things"}}}
+		Links:  []schema.LinkDef{{Field: "friends", Target: Others, TargetField: "things"}, {Field: "peers", Target: Things, TargetField: "peerof"}, {Field: "peerof", Target: Things, TargetField: "peers"}}}
 	return []*schema.StoreDef{owners, others, things}
 }
 
@@ -109,7 +111,8 @@ type SymInfo struct {
 
 var symbols = map[string]map[string]SymInfo{
 	Things: {"id": {Type: TStr}, "uk": {Type: TStr}, "s": {Type: TStr}, "ism": {Type: TInt}, "ibig": {Type: TInt}, "flt": {Type: TFloat}, "b": {Type: TBool}, "t": {Type: TTime}, "grp": {Type: TStr},
-		"tags": {Type: TStr, Set: true}, "nums": {Type: TStr, Set: true}, "owner": {Type: TStr, Target: Owners}, "friends": {Type: TStr, Set: true, Target: Others}, "meta": {Type: TAny, Map: true}},
+		"tags": {Type: TStr, Set: true}, "nums": {Type: TStr, Set: true}, "owner": {Type: TStr, Target: Owners}, "friends": {Type: TStr, Set: true, Target: Others}, "meta": {Type: TAny, Map: true},
+		"peers": {Type: TStr, Set: true, Target: Things}, "peerof": {Type: TStr, Set: true, Target: Things}},
 	Owners: {"kidlist": {Type: TStr, Set: true, Target: Things, KidOnly: true}, "favlist": {Type: TStr, Set: true, Target: Things}, "id": {Type: TStr}, "name": {Type: TStr}, "age": {Type: TInt}, "active": {Type: TBool}, "tags": {Type: TStr, Set: true}, "things": {Type: TStr, Set: true, Target: Things}},
 	Others: {"id": {Type: TStr}, "name": {Type: TStr}, "alias": {Type: TStr, NotNil: true}, "rank": {Type: TInt}, "tags": {Type: TStr, Set: true}, "things": {Type: TStr, Set: true, Target: Things}},
 }
@@ -212,6 +215,11 @@ func GenWorld(r *core.Rand, maxThings int, small bool) *World {
 		v["meta"] = meta
 		w.Rows[Things][id] = &Row{Id: id, V: v}
 	}
+	// peers: every thing links to some of the others (and now and then to itself)
+	all := w.Ids(Things)
+	for _, id := range all {
+		w.Rows[Things][id].V["peers"] = core.Subset(r, all, 0.25)
+	}
 	w.DeriveBackRefs()
 	return w
 }
@@ -266,6 +274,15 @@ func LoadCtx(ctx boltz.MutateContext, sc *schema.Schema, w *World, r *core.Rand)
 				}
 			}
 		}
+		// the self link collection, once every thing exists
+		things := sc.St(Things)
+		for _, id := range w.Ids(Things) {
+			if peers, _ := w.Rows[Things][id].V["peers"].([]string); len(peers) > 0 {
+				if err := things.Links["peers"].SetLinks(ctx.Tx(), id, append([]string{}, peers...)); err != nil {
+					return err
+				}
+			}
+		}
 		return nil
 	}
 }
@@ -277,6 +294,17 @@ func (w *World) DeriveBackRefs() {
 	}
 	for _, o := range w.Rows[Others] {
 		o.V["things"] = []string(nil)
+	}
+	for _, id := range w.Ids(Things) {
+		w.Rows[Things][id].V["peerof"] = []string(nil)
+	}
+	for _, id := range w.Ids(Things) {
+		peers, _ := w.Rows[Things][id].V["peers"].([]string)
+		for _, p := range peers {
+			if pr := w.Rows[Things][p]; pr != nil {
+				pr.V["peerof"] = append(pr.V["peerof"].([]string), id)
+			}
+		}
 	}
 	for _, id := range w.Ids(Things) {
 		t := w.Rows[Things][id]
